@@ -1,0 +1,14 @@
+//go:build verif
+// +build verif
+
+package whispertool
+
+// VerifYield, when set by a verification harness, is called at the scheduling points of
+// Open/Create (after the descriptor is obtained, after the lock is taken); it may block.
+var VerifYield func(point, filename string)
+
+func verifYield(point, filename string) {
+	if VerifYield != nil {
+		VerifYield(point, filename)
+	}
+}
